@@ -355,7 +355,13 @@ func runSEEKLEAF(c *Ctx) {
 				}
 				// no deeper entry: i+1 < len(path) refuted
 				if lc, isLen := ir.ResolveCell(bin.Y).(*ssa.Call); isLen && isLenCall(bin.Y) && len(lc.Call.Args) == 1 && isPathSlice(P, lc.Call.Args[0].Type()) {
-					return (bin.Op == token.LSS && !fc.Truth) || (bin.Op == token.GEQ && fc.Truth)
+					// exactly the next deeper entry: index+1
+					if add, isAdd := ir.ResolveCell(bin.X).(*ssa.BinOp); isAdd && add.Op == token.ADD {
+						if k, isK := ir.ConstInt(add.Y); isK && k == 1 {
+							return (bin.Op == token.LSS && !fc.Truth) || (bin.Op == token.GEQ && fc.Truth)
+						}
+					}
+					return false
 				}
 				return false
 			}, func(ssa.Instruction) bool { return false })
